@@ -49,14 +49,14 @@ OutSpace(m) ==
 Generous == fed = inp.have /\ grant >= Big(inp)
 
 \* what next.code() hands to lzma_code() (overridden by MCStarveLazy.cfg to show that StarveLive is not vacuous)
-InnerRet(r) == r.ret
+InnerRet(r, ain, aout) == r.ret
 
 DoCall ==
     /\ phase = "call"
     /\ LET a   == IF fed = inp.have THEN "FINISH" ELSE "RUN"
            ain == fed - totalIn
            r   == Code(inp, cs, ain, grant, a = "FINISH")
-       IN /\ Call(a, ain, grant, FALSE, FALSE, FALSE, InnerRet(r), r.uin, Len(r.out))
+       IN /\ Call(a, ain, grant, FALSE, FALSE, FALSE, InnerRet(r, ain, grant), r.uin, Len(r.out))
           /\ cs' = IF obs'.innerRan THEN r.c ELSE cs
           /\ outAcc' = IF ~obs'.innerRan THEN outAcc
                        ELSE IF obs'.ret \in Notifs THEN outAcc \o r.out \o <<NoteMark(obs'.ret, totalIn')>>
